@@ -195,6 +195,18 @@ def check_injected(case):
     spec, sampler = case['stack'], case['sampler']
     source, side, out, rec = call_sampler(spec, sampler, case['draws'], case['fallback_seed'])
     check_sample(spec, side, sampler, out, source)
+    # the sample is the caller's: putting it into another order in place must not reach the data
+    # the next sample is drawn from (a deterministic third of the cases)
+    sample = out[0]
+    if (spec['n_rdm'] + 2 * spec['n_cond']) % 3 == 0 and sample.n_cond >= 2:
+        lib(sample.reorder, np.arange(sample.n_cond - 1, -1, -1), on_error='reject')
+        try:
+            S.trace(source, side, 'source after the sample was reordered in place')
+        except S.Trace as t:
+            _v(t.msg, 'source-follows-sample:' + sampler)
+        if not np.array_equal(np.asarray(source.dissimilarities), side['vecs'], equal_nan=True):
+            _v('reordering the sample in place changed the dissimilarities of the source',
+               'source-follows-sample:' + sampler)
 
 
 def _canonical_selection(case):
